@@ -739,7 +739,9 @@ func (r *resolver) cloneDefs(parent HasDataDefinitions, defs []Definition, when 
 	for i, d := range defs {
 		copy[i] = d.(cloneable).clone(parent).(Definition)
 		if when != nil {
-			copy[i].(HasWhen).setWhen(when)
+			// setWhen makes the node the when's parent, so each node needs its own
+			w := *when
+			copy[i].(HasWhen).setWhen(&w)
 		}
 	}
 	return copy
